@@ -3,8 +3,10 @@
 //! input (or reproduces the listed input of a known finding).  Output: one JSON line.
 use clvmr::allocator::Allocator;
 
+mod alloc_model;
 mod findings;
 mod search;
+mod serde_find;
 
 fn main() {
     let args: Vec<String> = std::env::args().collect();
